@@ -7,7 +7,8 @@
    encoding is faithful.  The assurance that the implementation is a function
    of the content is the correspondence run of ./check C15.
    Discrete; closed under the global context. *)
-From Coq Require Import List Bool ZArith.
+From Coq Require Import List Bool ZArith QArith.
+Local Close Scope Q_scope.
 From FDAV Require Import Model.Encoding Lemmas.Encoding.
 Import ListNotations.
 
@@ -73,6 +74,27 @@ Theorem C15_to_long_length : forall (A V : Type) (ct : @content A V),
   length (to_long ct) = fold_right (fun c n => length c + n) 0 ct.
 Proof. exact @to_long_length. Qed.
 Print Assumptions C15_to_long_length.
+
+(* ---- F14: the unrepaired layout of the long table for the P-spline mean, as a defect model ----
+   [format_pooled] = per grid point (mean of the observed values, number of observations);
+   [format_last]   = per grid point (LAST observed value in long-table order, weight 1, or
+                     weight 0 where that value is exactly 0 / nothing observed).
+   On the content  curve 0 = (0,1) (1,2) (2,5),  curve 1 = (0,3) (1,0)  they differ. *)
+Theorem C15_mean_last_observation_refuted :
+  (format_pooled Qeq_bool f14_grid f14_content = [(2, 2); (1, 2); (5, 1)] /\
+   format_last Qeq_bool f14_grid f14_content = [(3, 1); (0, 0); (5, 1)] /\
+   mean_pooled Qeq_bool f14_grid f14_content = [2; 1; 5] /\
+   mean_last Qeq_bool f14_grid f14_content = [3; 0; 5] /\
+   ~ (nth 0 (mean_last Qeq_bool f14_grid f14_content) 0 == nth 0 (mean_pooled Qeq_bool f14_grid f14_content) 0))%Q.
+Proof. exact mean_last_observation_refuted. Qed.
+Print Assumptions C15_mean_last_observation_refuted.
+
+(* ... and coincide where a grid point carries a single non-zero observation *)
+Theorem C15_mean_last_agrees_single : forall (t v : Q),
+  Qeq_bool v 0 = false ->
+  format_last Qeq_bool [t] [[(t, v)]] = [(v, 1%Q)] /\ mean_last Qeq_bool [t] [[(t, v)]] = [v].
+Proof. exact mean_last_agrees_single. Qed.
+Print Assumptions C15_mean_last_agrees_single.
 
 (* non-vacuity: three curves on the grid 0,1,2,3 with gaps *)
 Example C15_example :
